@@ -15,7 +15,7 @@ DECIDES = ('necessary conditions of the tensor-product sum: the control net is a
            'the data dictionary is produced by the matching data property with per-direction arity (AG3); rational evaluators divide every '
            'coordinate but the last of a point by that same point\'s last slot (RP1); default start/stop parameters are the domain ends of '
            'their own direction (DOM1); all entry points of a class share one evaluator object call (EP1, reported); [SKEL, bounded] no index '
-           'error and no placeholder consumed in A3.1/A3.5 skeletons. the [0, 1] parameter rejection is only evaluated for shapes with normalised knot vectors (RG1). the cached evaluated points can never be stale after an edit of the definition or of the sampling (IV1 restricted to the evaluated points cache, inductive over histories). every rational evaluator forwards all of its arguments, the start/stop range in **kwargs included, to its non-rational parent (EV2); [SKEL, bounded, exact per tuple] every evaluated point is computed from exactly the control points span - degree .. span of each direction at the canonical flat index (SK5 dependency footprint).')
+           'error and no placeholder consumed in A3.1/A3.5 skeletons. the [0, 1] parameter rejection is only evaluated for shapes with normalised knot vectors (RG1). the cached evaluated points can never be stale after an edit of the definition or of the sampling (IV1 restricted to the evaluated points cache, inductive over histories). every rational evaluator forwards all of its arguments, the start/stop range in **kwargs included, to its non-rational parent (EV2); [SKEL, bounded, exact per tuple] every evaluated point is computed from exactly the control points span - degree .. span of each direction at the canonical flat index (SK5 dependency footprint). both pluggable span searches return the non-empty half-open span of every parameter, knots of any multiplicity and the domain end included (OT1, order types). [SKEL, abstract object] interpreted on an object created with normalize_kv=False, the named methods never reach utilities.check_params and hand the request on to the evaluator / operation (RG2: spelling-independent form of RG1).')
 NOT_DECIDED = ('numerical equality with the Cox-de Boor sum; correctness of span search and basis values (C03); exact end points of the sampled grid '
                '(floating point in linspace) and rounding in sample_size (e.g. floor(1/delta + 0.5) vs int(1/delta)).')
 TECHNIQUE = 'stride rule in polynomial normal form, axis-tag dataflow, key-set agreement, per-point map extraction'
@@ -50,12 +50,14 @@ def check(m, run):
     ep1(m, run)
     ep2(m, run)
     c17.ev2(m, run)
+    from .. import skel_drivers as _sd
+    _sd.c03_order(m, run)     # both pluggable span searches: the evaluators index basis functions and control points by the span they return
     from .. import rules_state as rs
     rs.iv1(m, run, rs.GEOM, caches_filter=lambda c: c == '_eval_points')
     run.floor('IV1.no-stale-cache', 150, 'geometry classes x entries x evaluated points cache')
     from .. import ops_common as oc
     oc.unit_range_rule(m, run, ('evaluate', 'evaluate_single', 'evaluate_list'))
-    run.floor('RG1.unit-range-check-only-when-normalised', 11, 'evaluate / evaluate_single / evaluate_list of the three shape classes')
+    run.floor('RG2.no-unit-range-test-for-un-normalised-shapes', 8, 'evaluate / evaluate_single / evaluate_list of the three shape classes')
     grid_order(m, run)
     try:
         from .. import skel_drivers
